@@ -309,8 +309,8 @@ class C12(c05.C05):
     max_steps = 90
     uses_restart = False
     budget = {
-        "quick": {"runs": 16000, "wall_cap_s": 900},
-        "thorough": {"runs": 1000000, "wall_cap_s": 3300},
+        "quick": {"runs": 40000, "wall_cap_s": 900},
+        "thorough": {"runs": 1500000, "wall_cap_s": 5400},
     }
     rule = (
         "one evaluation = one seeded C05-style history on twin worlds in which a misbehaving "
